@@ -2,7 +2,7 @@ import ExprModel.Proofs.BcCompileA
 /-
 C05, part 7: slices and the seven builtins preserve the invariant.
 -/
-namespace ExprModel
+namespace ExprModel.Bc
 
 theorem nodeWf_slice (cfg : CompCfg) (m : Meta) (x : Node) (f t : Option Node) (hx : NodeWf cfg x)
     (hf : ∀ f', f = some f' → NodeWf cfg f') (ht : ∀ t', t = some t' → NodeWf cfg t') :
@@ -310,4 +310,4 @@ theorem nodeWf_builtin (cfg : CompCfg) (m : Meta) (name : String) (args : List N
   · exact nodeWf_count cfg m _ _ (hargs _ (by simp)) (hargs _ (by simp)) p code p' hp h
   all_goals cases h'
 
-end ExprModel
+end ExprModel.Bc
